@@ -88,6 +88,15 @@ func buildTwo(c twoCfg) (*vWorld, int, int) {
 				}}}}}}
 		}
 	}
+	if c.faultsA {
+		// an instance detached from A's cloud group: removing its node fails with not-in-group
+		for _, n := range w.nodes {
+			if n.group == a && verifChoice(c.pa+n.name+".detached", 2) == 1 {
+				n.obj.Spec.ProviderID = "aws:///az/i-detached-" + n.name
+				n.member = false
+			}
+		}
+	}
 	if c.faultsA && c.nA > 0 {
 		// zero-capacity nodes make the percentage computation fail for A
 		if verifChoice(c.pa+"zeroAllocatable", 2) == 1 {
@@ -217,7 +226,17 @@ func VerifHarness_C12() {
 	w3, a3, _ := buildTwo(c3)
 	err3 := w3.ctrl.RunOnce()
 	verifUnfreezeClock()
-	verifAssert("C12.scan-completes", err1 == nil && err2 == nil && err3 == nil)
+	fatalA := false // the documented stop: a grace-expired tainted node of A that is not in A's cloud group
+	for _, n := range w1.nodes {
+		if n.group == a1 && !n.member && n.class == tcEsc {
+			fatalA = true
+		}
+	}
+	if !fatalA {
+		verifAssert("C12.scan-completes", err1 == nil && err2 == nil && err3 == nil)
+	} else {
+		verifAssert("C12.scan-completes", err2 == nil)
+	}
 	// every journalled call targets a node or ASG of a configured group
 	{
 		n := 0
@@ -227,7 +246,11 @@ func VerifHarness_C12() {
 		verifAssert("C12.every-call-attributable", n == w1.mutations(0))
 	}
 	jb1, jb2 := w1.groupCalls(b1, 0), w2.groupCalls(b2, 0)
-	assertSameCalls("C12.other-group-unaffected", jb1, jb2)
+	if err1 == nil {
+		assertSameCalls("C12.other-group-unaffected", jb1, jb2)
+	} else {
+		verifAssert("C12.only-not-in-group-stops-the-loop", fatalA)
+	}
 	ja1, ja3 := w1.groupCalls(a1, 0), w3.groupCalls(a3, 0)
 	assertSameCalls("C12.first-group-unaffected-by-later-group", ja1, ja3)
 	if len(jb1) > 0 {
